@@ -52,35 +52,53 @@ Definition sort_keys (hs : list (list cls)) (l : list key) : list key := fold_ri
 Definition dispatch (hs : list (list cls)) (tbl : list (key * combo)) : list key :=
   sort_keys hs (filter (applicableb hs) (map fst tbl)).
 
-(* effective method: arounds most specific first, each wrapping the rest through call-next-method;
-   then befores most specific first, the most specific primary, afters least specific first *)
-Fixpoint spec_wrap (arounds : list body) (inner : list event * result) : list event * result :=
-  match arounds with
-  | [] => inner
-  | b :: rest =>
-      if b_next b then let '(tr, r) := spec_wrap rest inner in (Ev (b_id b) :: tr ++ [EvEnd (b_id b)], r)
-      else ([Ev (b_id b); EvEnd (b_id b)], RVal (b_id b))
-  end.
-
+(* The effective method of the standard method combination (CLHS 7.6.6.2), for the applicable
+   methods in dispatch order. What ONE body does is given by run_body of the model (trace, ask
+   next-method-p, call-next-method as often as it is written, trace the end); the specification
+   says what "the next method" is:
+   - for the k-th :around method, the (k+1)-th :around method, and for the last one the inner
+     part: all :before methods most specific first, the most specific primary, all :after methods
+     least specific first. An :around method always has a next method.
+   - for a primary method, the next most specific primary; the least specific one has none
+     (next-method-p is false, call-next-method signals no-next-method).
+   The arguments of a next method are those given to call-next-method. A condition unwinds. *)
 Definition opt_list {A} (o : option A) : list A := match o with Some x => [x] | None => [] end.
+Definition is_nil {A} (l : list A) : bool := match l with [] => true | _ => false end.
+Definition evs (bs : list body) (v : argv) : list event := map (fun b => Ev (b_id b) v) bs.
 
-Definition effective (cs : list combo) : list event * result :=
-  let arounds := flat_map (fun c => opt_list (c_wrap c)) cs in
-  let befores := flat_map (fun c => opt_list (c_before c)) cs in
-  let prims := flat_map (fun c => opt_list (c_primary c)) cs in
-  let afters := flat_map (fun c => opt_list (c_after c)) cs in
-  match prims with
-  | p :: _ =>
-      spec_wrap arounds (map (fun b => Ev (b_id b)) befores ++ [Ev (b_id p)] ++
-                         map (fun b => Ev (b_id b)) (rev afters), RVal (b_id p))
-  | [] => ([], RNoPrimary)   (* no applicable primary method: an error in the language *)
+Fixpoint spec_prims (ps : list body) (v : argv) : list event * result :=
+  match ps with
+  | [] => ([], RNil)
+  | b :: rest => run_body (prim_ends b) b v (negb (is_nil rest)) (fun v' => spec_prims rest v')
+  end.
+Definition spec_inner (befores prims afters : list body) (v : argv) : list event * result :=
+  let '(tr, r) := spec_prims prims v in
+  if is_err r then (evs befores v ++ tr, r)
+  else (evs befores v ++ tr ++ evs (rev afters) v, r).
+Fixpoint spec_arounds (arounds : list body) (inner : argv -> list event * result) (v : argv)
+  : list event * result :=
+  match arounds with
+  | [] => inner v
+  | b :: rest => run_body true b v true (fun v' => spec_arounds rest inner v')
   end.
 
-Definition spec_call (ct : ctable) (tbl : list (key * combo)) (cs : list cls) : list event * result :=
+Definition wraps (cs : list combo) : list body := flat_map (fun c => opt_list (c_wrap c)) cs.
+Definition prims (cs : list combo) : list body := flat_map (fun c => opt_list (c_primary c)) cs.
+Definition befores (cs : list combo) : list body := flat_map (fun c => opt_list (c_before c)) cs.
+Definition afters (cs : list combo) : list body := flat_map (fun c => opt_list (c_after c)) cs.
+
+Definition effective (cs : list combo) (v : argv) : list event * result :=
+  match prims cs with
+  | [] => ([], RNoApplicable)   (* no applicable primary method: an error in the language; the
+                                   condition slip signals for it is no-applicable-method-error *)
+  | _ => spec_arounds (wraps cs) (spec_inner (befores cs) (prims cs) (afters cs)) v
+  end.
+
+Definition spec_call (ct : ctable) (tbl : list (key * combo)) (cs : list cls) (v : argv) : list event * result :=
   let hs := map (hier_of ct) cs in
   match dispatch hs tbl with
   | [] => ([], RNoApplicable)
-  | ks => effective (deref tbl ks)
+  | ks => effective (deref tbl ks) v
   end.
 
 (* abstract method table after a history: a finite map updated by defmethod / remove-method *)
@@ -103,7 +121,7 @@ Definition spec_step (tbl : list (key * combo)) (o : op) : list (key * combo) :=
                   end
       | None => tbl
       end
-  | OpCall _ => tbl
+  | OpCall _ _ => tbl
   end.
 Definition spec_table (ops : list op) : list (key * combo) := fold_left spec_step ops [].
 
@@ -111,6 +129,6 @@ Definition spec_table (ops : list op) : list (key * combo) := fold_left spec_ste
 Fixpoint spec_run (ct : ctable) (tbl : list (key * combo)) (ops : list op) : list out :=
   match ops with
   | [] => []
-  | OpCall cs :: ops' => Some (spec_call ct tbl cs) :: spec_run ct tbl ops'
+  | OpCall cs v :: ops' => Some (spec_call ct tbl cs v) :: spec_run ct tbl ops'
   | o :: ops' => None :: spec_run ct (spec_step tbl o) ops'
   end.
